@@ -69,6 +69,8 @@ def check_case(spec: dict) -> dict:
         if t in internal:
             if t != u and not M.is_strict_desc(u, t):
                 int_imports.add((u, t))
+        elif M.is_self_or_desc(t, sub):
+            pass  # a name below module_path that is no module (a missing or generated package, a function): never a module
         elif t not in internal_nodes:
             ext_imports.add((u, t))
     for f, line in spec.get("raw_lines", []):
@@ -202,7 +204,9 @@ def cases(draw):
     tree = draw(PS.project_trees(names=INTERNAL_NAMES, max_depth=3, with_noise=False))
     dirs = [""] + tree["dirs"]
     tree["module_path"] = draw(st.sampled_from(dirs)) if draw(st.integers(0, 2)) == 0 else ""
-    tree = draw(PS.with_imports(tree, max_imports=10, extra_targets=EXT * 2))
+    sub0 = PS.dotted(tree["root"], tree["module_path"])
+    dangling = [f"{sub0}.zz_generated.schema", f"{sub0}.zz_generated", f"{sub0}.a.zz.deep.name"]
+    tree = draw(PS.with_imports(tree, max_imports=10, extra_targets=EXT * 2 + dangling))
     sub = PS.dotted(tree["root"], tree["module_path"])
     mods = PS.tree_modules(tree)
     internal = {m for m in mods if M.is_self_or_desc(m, sub)}
@@ -237,7 +241,8 @@ FIXED = {
     "imports": [["main.py", "logging.handlers"], ["main.py", "proj.a.m"], ["a/m.py", "os.path"], ["a/m.py", "handlers"],
                 ["a/handlers/h.py", "a.handlers"], ["a/handlers/h.py", "proj.util.u"], ["ab/m.py", "proj_x.y"], ["ab/m.py", "proj.a.handlers.h"],
                 ["util/u.py", "util"], ["util/u.py", "xml.etree.ElementTree"], ["handlers.py", "proj.ab.m"], ["a/m.py", "proj.ab.m"],
-                ["a/m.py", "pro"], ["main.py", "projx.y"]],
+                ["a/m.py", "pro"], ["main.py", "projx.y"], ["a/handlers/h.py", "proj.a.handlers.zz_generated.schema"],
+                ["util/u.py", "proj.util.zz_missing.deep.name"], ["main.py", "proj.zz_generated.schema"]],
     "raw_lines": [["a/m.py", "from . import helper"], ["a/handlers/h.py", "from .. import thing"], ["a/handlers/h.py", "from .. import *"],
                   ["util/u.py", "from . import *"]],
 }
